@@ -11,7 +11,7 @@ from libertem_blobfinder.base import correlation as bc
 PROP = "C03"
 LEAN_MODULE = "BlobfinderModel.Properties.C03"
 GEN_FILES = ["Eval", "Crop", "Blocks"]
-FRAGMENTS = ["refine_center", "kernels", "evaluate", "evaluate_loop", "shift", "correlation_fft", "log_scale", "fast_blocks", "full_blocks"]
+FRAGMENTS = ["kernels", "evaluate", "evaluate_loop", "shift", "correlation_fft", "log_scale", "fast_blocks", "full_blocks"]
 DRIVER = "drvcorr"
 RULE = ("correspondence (stage-wise, exact inputs): the real intermediate arrays of process_frame_fast / _full are captured "
         "by wrapping the stage functions; log-scaled buffers vs log of the model's exact argument; correlation maps vs the "
